@@ -312,7 +312,7 @@ func c19R3(c *Ctx) {
 		ece := c.fn("zmodemTransfer.ensureClientExit")
 		hit, path := reachFrom(ece.Blocks[0], 0, isReturn, func(in ssa.Instruction) bool {
 			g, ok := in.(*ssa.Go)
-			return ok && g.Call.StaticCallee() != nil && g.Call.StaticCallee().Parent() == ece
+			return ok && g.Call.StaticCallee() != nil // the guard's goroutine: a closure of the guard, or a function of its own
 		})
 		c.check(hit == nil, "ensureClientExit/always-arms", c.pos(ece.Pos()), "the exit guard is always armed", "the exit guard can return without arming the kill", c.pathStr(path)...)
 		if k := c.Funcs["zmodemTransfer.ensureClientExit$1"]; k != nil {
@@ -820,6 +820,12 @@ func c19Bridge(c *Ctx) {
 		if nm, _ := fieldAddrName(st.Addr); nm == "zmodemTransfer.upload" {
 			b, isC := constBool(st.Val)
 			one := factCmp(factsAt(st.Block()), token.EQL, anyValue, isConstIntV('1'))
+			if !isC {
+				// `upload: header == '1'`: the flag is the comparison itself
+				if op, _, y, ok := cmpFact(normFact(fact{V: st.Val, Pol: true})); ok && op == token.EQL && isConstIntV('1')(y) {
+					isC, b, one = true, true, true
+				}
+			}
 			c.check(isC && b == one, "detectZmodem/upload-iff-ZRINIT", c.ipos(st), "a ZRINIT header (type 1: the remote side receives) means upload, ZRQINIT (type 0) download", "the header type is mapped to the wrong direction")
 		}
 	})
